@@ -1,8 +1,11 @@
 (* C01 — Synchronous and asynchronous APIs behave identically.  Property theorems only.
    One theorem per hand-written pair the property names; the caching-loader pair (CachingLoaderMixin.load / load_async)
-   is C23_sync_async_copies_agree in Props/C23.v and is not repeated here. *)
+   is C23_sync_async_copies_agree in Props/C23.v and is not repeated here.  Second part (after the paired tags): template
+   inheritance incl. block.super (PairInherit.v), name -> bound template and the API-mix theorem over C23's model of the
+   caching mixin (PairLoad.v), the two static-analysis walks (PairAnalyze.v). *)
 From Coq Require Import String ZArith List.
 From LiquidVerif Require Import Prelude PyPrims MacroArgs PairSync PairSync_Proofs PairTags PairTags_Proofs.
+From LiquidVerif Require PairInherit PairInherit_Proofs PairLoad PairLoad_Proofs PairAnalyze PairAnalyze_Proofs CachingLoader.
 Import ListNotations.
 Local Open Scope list_scope.
 
@@ -168,3 +171,216 @@ Example C01_include_tag_example :
                            {| in_name := ELit (VS 0); in_tname := lit "p"; in_var := Some (EVar (lit "gx")); in_alias := None;
                               in_args := [(lit "gx", ELit (VS 7))] |}))) = [OV (VS 7); OV (VS 7)].
 Proof. vm_compute. split; reflexivity. Qed.
+
+(* ===============================================================================================================
+   Template inheritance (PairInherit.v): both copies of ExtendsNode.render_to_output, BlockNode.render_to_output,
+   _build_block_stacks and the node loop of render_with_context, and the ONE copy of BlockDrop.__getitem__ (block.super),
+   which renders the parent block with the synchronous Node.render under either API.  The two APIs differ in two
+   primitives -- obtaining a template and reading an item of a data object -- and every event records which API it went
+   through and whether it happened inside block.super.  erase_run forgets those two marks and keeps the outcome, the
+   block stacks left behind, the output and the sequence of loads (hits and misses). *)
+Module PI := PairInherit.
+Module PIP := PairInherit_Proofs.
+
+(* render_async = render, for every world, template, fuel and initial block stacks, whenever the two APIs agree on the
+   templates loaded and items read OUTSIDE block.super during the synchronous render.  Nothing is required of what is
+   reached inside block.super: there both APIs run the same synchronous code. *)
+Theorem C01_inherit_render : forall fuel w t st,
+  Forall (PIP.agree_outside_super w) (PIP.tr (PI.render_sync fuel w t st)) ->
+  PI.erase_run (PI.render_async fuel w t st) = PI.erase_run (PI.render_sync fuel w t st).
+Proof. exact PIP.inherit_async_eq. Qed.
+Print Assumptions C01_inherit_render.
+
+(* the property's inputs: data objects without asynchronous item access, loaders that return the same source through
+   get_source and get_source_async (C01_get_source below for the built-in ones) *)
+Theorem C01_inherit_render_plain : forall fuel w t st,
+  (forall x, PI.w_acc w PI.Async x = PI.w_acc w PI.Sync x) -> (forall n, PI.w_ld w PI.Async n = PI.w_ld w PI.Sync n) ->
+  PI.erase_run (PI.render_async fuel w t st) = PI.erase_run (PI.render_sync fuel w t st).
+Proof. exact PIP.inherit_async_eq_plain. Qed.
+Print Assumptions C01_inherit_render_plain.
+
+(* _build_block_stacks_async = _build_block_stacks in any context and for any block stacks already present: same
+   chain of parents loaded in the same order, same stacks and parent links, same error (circular extends, too many
+   extends, duplicate block, template not found) at the same point *)
+Theorem C01_inherit_build_stacks : forall fuel w c t st,
+  Forall (PIP.agree w) (PIP.tr (PI.build_stacks_sync fuel w c t st)) ->
+  PI.erase_run (PI.build_stacks_async fuel w c t st) = PI.erase_run (PI.build_stacks_sync fuel w c t st).
+Proof. exact PIP.build_stacks_async_eq. Qed.
+Print Assumptions C01_inherit_build_stacks.
+
+(* which API every event goes through: render uses the synchronous one only ... *)
+Theorem C01_inherit_sync_modes : forall fuel w t st, Forall PIP.sync_mode_ok (PIP.tr (PI.render_sync fuel w t st)).
+Proof. exact PIP.sync_modes. Qed.
+Print Assumptions C01_inherit_sync_modes.
+
+(* ... render_async the asynchronous one everywhere EXCEPT inside block.super, where templates are obtained with
+   get_template and items are read with __getitem__ even though render_async is running *)
+Theorem C01_inherit_async_modes : forall fuel w t st, Forall PIP.async_mode_ok (PIP.tr (PI.render_async fuel w t st)).
+Proof. exact PIP.async_modes. Qed.
+Print Assumptions C01_inherit_async_modes.
+
+(* What that implies, against a render_async whose block.super awaits render_async of the parent block (ra_full: not the
+   code, the yardstick): the two are indistinguishable exactly under the guard that the APIs agree on what is reached
+   INSIDE block.super -- no item that reads differently when awaited, no template only the asynchronous loader has.
+   _partial: the unguarded statement is refuted below; objects with __getitem_async__ are outside the property. *)
+Theorem C01_super_sync_in_async_partial : forall fuel w t st,
+  Forall (PIP.agree_inside_super w) (PIP.tr (PI.render_async fuel w t st)) ->
+  PI.erase_run (PI.render_async fuel w t st) = PI.erase_run (PI.render_async_full fuel w t st).
+Proof. exact PIP.super_sync_in_async. Qed.
+Print Assumptions C01_super_sync_in_async_partial.
+
+(* witness: under render_async the same item reads 1 (awaited) in the child block and 0 (not awaited) in the parent
+   block reached through block.super *)
+Theorem C01_super_sync_in_async_refuted :
+  PI.out_of (PIP.tr (PI.render_async 20 PIP.wit_world PIP.wit_child PI.store0)) = [PI.OVal PI.Async PIP.kx; PI.OVal PI.Sync PIP.kx] /\
+  PI.erase_run (PI.render_async 20 PIP.wit_world PIP.wit_child PI.store0) <>
+  PI.erase_run (PI.render_async_full 20 PIP.wit_world PIP.wit_child PI.store0).
+Proof. exact PIP.super_sync_in_async_guard_needed. Qed.
+Print Assumptions C01_super_sync_in_async_refuted.
+
+(* witness: a template only get_source_async finds, included from a parent block: found when render_async renders the
+   block directly, TemplateNotFoundError when the block is reached through block.super *)
+Theorem C01_super_loads_synchronously_refuted :
+  fst (fst (PI.render_async 20 PIP.wit2_world PIP.wit2_child PI.store0)) = PI.Fail ENotFound /\
+  fst (fst (PI.render_async_full 20 PIP.wit2_world PIP.wit2_child PI.store0)) = PI.Val tt /\
+  fst (fst (PI.render_async 20 PIP.wit2_world [PI.NBlock (PI.ilit "c") false [PI.NInclude (PI.ilit "p")]] PI.store0)) = PI.Val tt.
+Proof. exact PIP.super_loads_synchronously. Qed.
+Print Assumptions C01_super_loads_synchronously_refuted.
+
+(* the guard of C01_inherit_render is needed: an object whose items read differently when awaited (excluded by the
+   property) makes render and render_async differ already outside block.super *)
+Theorem C01_inherit_render_refuted :
+  PI.erase_run (PI.render_async 20 PIP.wit_world PIP.wit_child PI.store0) <>
+  PI.erase_run (PI.render_sync 20 PIP.wit_world PIP.wit_child PI.store0).
+Proof. exact PIP.inherit_async_eq_guard_needed. Qed.
+Print Assumptions C01_inherit_render_refuted.
+
+(* the fully asynchronous render agrees with render when the APIs agree on everything reached *)
+Theorem C01_inherit_full_async : forall fuel w t st,
+  Forall (PIP.agree w) (PIP.tr (PI.render_sync fuel w t st)) ->
+  PI.erase_run (PI.render_async_full fuel w t st) = PI.erase_run (PI.render_sync fuel w t st).
+Proof. exact PIP.full_async_eq. Qed.
+Print Assumptions C01_inherit_full_async.
+
+Example C01_inherit_guards_example :
+  Forall (PIP.agree_outside_super PIP.plain_world) (PIP.tr (PI.render_sync 20 PIP.plain_world PIP.wit_child PI.store0)) /\
+  Forall (PIP.agree_inside_super PIP.plain_world) (PIP.tr (PI.render_async 20 PIP.plain_world PIP.wit_child PI.store0)) /\
+  PI.out_of (PIP.tr (PI.render_async 20 PIP.plain_world PIP.wit_child PI.store0)) = [PI.OVal PI.Async PIP.kx; PI.OVal PI.Sync PIP.kx].
+Proof. exact PIP.guards_hold. Qed.
+
+(* ===============================================================================================================
+   From a name to a bound template (PairLoad.v): ChoiceLoader.get_source / get_source_async (nested to any depth),
+   FileSystemLoader.get_source / get_source_async, DictLoader and BaseLoader's default, BaseLoader.load / load_async,
+   Environment.get_template / get_template_async, Environment.analyze_tags / analyze_tags_async. *)
+Module PL := PairLoad.
+Module PLP := PairLoad_Proofs.
+
+Theorem C01_get_source : forall l name, PL.get_source_async l name = PL.get_source_sync l name.
+Proof. exact PLP.get_source_async_eq. Qed.
+Print Assumptions C01_get_source.
+
+(* the same template record -- name, path, source, globals (environment globals under the globals argument), front
+   matter -- or the same error (not found, syntax error of the source) *)
+Theorem C01_get_template : forall e name g, PL.get_template_async e name g = PL.get_template_sync e name g.
+Proof. exact PLP.get_template_async_eq. Qed.
+Print Assumptions C01_get_template.
+
+Theorem C01_analyze_tags : forall e name, PL.analyze_tags_async e name = PL.analyze_tags_sync e name.
+Proof. exact PLP.analyze_tags_async_eq. Qed.
+Print Assumptions C01_analyze_tags.
+
+(* the model tells a ChoiceLoader copy apart that gives up after its first loader *)
+Theorem C01_choice_first_only_refuted :
+  exists ls name, PL.choice_first_only PL.get_source_async ls name <> PL.get_source_sync (PL.LChoice ls) name.
+Proof. exact PLP.choice_first_only_refuted. Qed.
+Print Assumptions C01_choice_first_only_refuted.
+
+(* what both copies bind: the globals argument over the environment's globals ... *)
+Theorem C01_make_globals_lookup : forall e g x,
+  alookup x (PL.make_globals e g) =
+  match g with
+  | Some d => match alookup x (rev d) with Some v => Some v | None => alookup x (PL.e_globals e) end
+  | None => alookup x (PL.e_globals e)
+  end.
+Proof. exact PLP.make_globals_lookup. Qed.
+Print Assumptions C01_make_globals_lookup.
+
+(* ... and the template's name is the last component of its path through the asynchronous API too *)
+Theorem C01_loaded_name : forall e name g t, PL.get_template_async e name g = Ok t -> PL.t_name t = PL.basename (PL.t_path t).
+Proof. exact PLP.loaded_name. Qed.
+Print Assumptions C01_loaded_name.
+
+(* One caching loader (the model of CachingLoaderMixin of C23), any history of loads, edits and deletions: which API
+   each load goes through does not change any template or error returned -- cache hits, misses, reloads, evictions and
+   copies bound to other globals included -- provided get_source_async hands out a plain up-to-date callable. *)
+Theorem C01_caching_api_mix : forall c, CachingLoader.awaitable_uptodate c = false -> forall st rs rs',
+  map PLP.sync_req rs = map PLP.sync_req rs' ->
+  CachingLoader.run CachingLoader.fixed c (CachingLoader.init c st) rs =
+  CachingLoader.run CachingLoader.fixed c (CachingLoader.init c st) rs'.
+Proof. exact PLP.api_mix_irrelevant. Qed.
+Print Assumptions C01_caching_api_mix.
+
+(* without that (FileSystemLoader.get_source_async as found): cached through get_template_async, the next get_template
+   raises LiquidError *)
+Theorem C01_caching_api_mix_refuted :
+  PLP.mix_run CachingLoader.Async CachingLoader.Sync <> PLP.mix_run CachingLoader.Sync CachingLoader.Sync /\
+  nth_error (PLP.mix_run CachingLoader.Async CachingLoader.Sync) 1 = Some (CachingLoader.RE ELiquid).
+Proof. exact PLP.api_mix_awaitable_refuted. Qed.
+Print Assumptions C01_caching_api_mix_refuted.
+
+(* ===============================================================================================================
+   Static analysis (PairAnalyze.v): analyze._visit over the generators of Node.children against analyze_async._visit
+   over the awaited lists of Node.children_async. *)
+Module PA := PairAnalyze.
+Module PAP := PairAnalyze_Proofs.
+
+(* the two walks append the same entries to tags / variables / globals / locals in the same order, load the same
+   templates in the same order, stop at the same TemplateNotFoundError and leave the same `seen` map, scopes and
+   static-context bindings, for every template, include_partials flag and starting state *)
+Theorem C01_analyze_walk : forall w, (forall n, PA.aw_ld w PA.AAsync n = PA.aw_ld w PA.ASync n) ->
+  forall fuel ip name t st,
+  PA.werase_run (PA.analyze_async fuel w ip name t st) = PA.werase_run (PA.analyze_sync fuel w ip name t st).
+Proof. exact PAP.analyze_async_eq. Qed.
+Print Assumptions C01_analyze_walk.
+
+(* include_partials=False: neither walk loads anything *)
+Theorem C01_analyze_no_partials : forall fuel w name t st,
+  Forall PAP.not_load (PAP.wtr (PA.analyze_sync fuel w false name t st)) /\
+  Forall PAP.not_load (PAP.wtr (PA.analyze_async fuel w false name t st)).
+Proof. exact PAP.no_partials_no_loads. Qed.
+Print Assumptions C01_analyze_no_partials.
+
+(* each walk reaches the loader through its own API only *)
+Theorem C01_analyze_walk_modes : forall fuel w ip name t st,
+  Forall (PAP.loads_through PA.ASync) (PAP.wtr (PA.analyze_sync fuel w ip name t st)) /\
+  Forall (PAP.loads_through PA.AAsync) (PAP.wtr (PA.analyze_async fuel w ip name t st)).
+Proof. exact PAP.walk_modes. Qed.
+Print Assumptions C01_analyze_walk_modes.
+
+(* the model tells a copy apart that awaits the children of a partial before it looks the partial up in `seen` *)
+Theorem C01_analyze_eager_refuted :
+  PA.ao_loads (PA.aobserve (PA.analyze_async 10 PAP.wit_aw true (PA.alit "root") PAP.wit_root PA.ws0)) = [(PA.AAsync, PA.alit "p", true)] /\
+  PA.ao_loads (PA.aobserve (PA.analyze_sync 10 PAP.wit_aw true (PA.alit "root") PAP.wit_root PA.ws0)) = [(PA.ASync, PA.alit "p", true)] /\
+  PA.werase_run (PAP.analyze_eager 10 PAP.wit_aw true (PA.alit "root") PAP.wit_root PA.ws0) <>
+  PA.werase_run (PA.analyze_sync 10 PAP.wit_aw true (PA.alit "root") PAP.wit_root PA.ws0).
+Proof. exact PAP.eager_children_refuted. Qed.
+Print Assumptions C01_analyze_eager_refuted.
+
+(* The code as found identified an inline snippet by id(), the address of a node object.  Node objects die with the
+   template load that parsed them and their addresses are handed out again, so the result depended on the memory
+   allocator: with one legal allocation the walk recognises the snippet of a partial loaded for the third time as seen,
+   with another it does not -- analyze() and analyze_async() of one template, whose allocation patterns differ, report
+   different results.  Repaired (_snippet_key: source text and position); C01_analyze_walk is about the repaired code,
+   where the identity is a function of the input. *)
+Theorem C01_analyze_snippet_identity_refuted :
+  PA.ao_globals (PA.aobserve (PA.analyze_sync 10 (PAP.old_world PAP.addr_reused) true (PA.alit "root") PAP.old_root PA.ws0)) <>
+  PA.ao_globals (PA.aobserve (PA.analyze_async 10 (PAP.old_world PAP.addr_fresh) true (PA.alit "root") PAP.old_root PA.ws0)) /\
+  PA.ao_globals (PA.aobserve (PA.analyze_sync 10 (PAP.old_world PAP.addr_reused) true (PA.alit "root") PAP.old_root PA.ws0)) <>
+  PA.ao_globals (PA.aobserve (PA.analyze_sync 10 (PAP.old_world PAP.addr_fresh) true (PA.alit "root") PAP.old_root PA.ws0)).
+Proof. exact PAP.snippet_identity_by_address_refuted. Qed.
+Print Assumptions C01_analyze_snippet_identity_refuted.
+
+Example C01_analyze_snippet_by_position_example :
+  PA.ao_globals (PA.aobserve (PA.analyze_sync 10 (PAP.old_world PA.by_position) true (PA.alit "root") PAP.old_root PA.ws0)) =
+    [(PA.alit "g", [(PA.alit "p", 11%N)])].
+Proof. exact (proj1 PAP.snippet_identity_by_position). Qed.
